@@ -285,7 +285,13 @@ func HarnessC08Callbacks() {
 func HarnessC02Readers() {
 	rd := NewManualReader(WithTemporalitySelector(pipeDelta))
 	rc := NewManualReader()
-	mp := pipeProvider(nil, rd, rc)
+	// without views, or with two views that rename the instrument to names
+	// differing only in case (one stream identity: still counted once)
+	var views []View
+	if vndChoice(2) == 1 {
+		views = []View{NewView(Instrument{Name: "c"}, Stream{Name: "x"}), NewView(Instrument{Name: "c"}, Stream{Name: "X"})}
+	}
+	mp := pipeProvider(views, rd, rc)
 	c, err := mp.Meter("m").Int64UpDownCounter("c")
 	vndAssert(err == nil, "instrument-created")
 	steps := vndParam("STEPS", 4)
